@@ -110,5 +110,7 @@ def run(ctx):
                 if nm == GETP:
                     users.setdefault(path, 0)
                     users[path] += 1
-    run.inst("C02.R2", "get_pentagon-callers", {C2L, C2B, CONT} <= set(users), "get_pentagon is called from %s" % sorted(u.split("::")[-1] for u in users))
+    # (the containment test either calls get_pentagon or builds the same geometry itself: that is what the geometry[..]
+    # instances above decide regime by regime; the census is about the two reporting functions)
+    run.inst("C02.R2", "get_pentagon-callers", {C2L, C2B} <= set(users), "get_pentagon is called from %s" % sorted(u.split("::")[-1] for u in users))
     run.floor("C02", "rule instances", len(run.instances), 10)
